@@ -270,7 +270,7 @@ func (d *dec) extArrayChunks(o *Object, sp *dataspace, lay *layoutMsg, chunkByte
 	var pend []pending
 	defer func() {
 		if r := recover(); r != nil {
-			panic(r)
+			panic(r) // a violation inside the array structures: nothing to map
 		}
 		curGrid := make([]uint64, rank)
 		for k := range curGrid {
